@@ -218,11 +218,14 @@ RULES = [
     ("src/primitives/threshold.rs", r"^map_from_post_order_iter$", r"", r"", "model:RobustModel.thr_map_post_order (Panic 2 when an index is out of range) - thr_map_post_order_total under post-order indices"),
     ("src/primitives/threshold.rs", r"^is_sorted$", r"index", r"", "arg:windows(2) yields slices of length exactly 2"),
     ("src/primitives/threshold.rs", r"", r"", r"", "model:RobustModel (threshold constructors) - threshold_ctor_total"),
-    ("src/iter/tree.rs", r"^next$", r"unwrap", r"nth_child", "model:RobustModel.post_step / vpre_step (Panic 3) - nth_child(idx) with idx < n_children: post_order_iter_total_C11 (push_children_rev_ok)"),
-    ("src/iter/tree.rs", r"^next$", r"index", r"", "model:RobustModel.post_step (Panic 4) - parent_stack_idx always below the stack height: post_order_iter_total_C11 (invariant pinv)"),
+    ("src/iter/tree.rs", r"^next$", r"unwrap", r"nth_child", "model:RobustModel.post_next / push_children_rev (Panic 3) - nth_child(idx) with idx < n_children: post_order_iter_correct_C11 (post_order t = ROk (post_spec t 0), RobustIterProofs.push_children_exact); the VerbosePreOrderIter copy of the site is tied only (RobustIterCasesCheck comparisons 4, 5)"),
+    ("src/iter/tree.rs", r"^next$", r"index", r"", "model:RobustModel.post_next (Panic 2 / 4) - parent_stack_idx always below the stack height: post_order_iter_correct_C11 (RobustIterProofs.push_child_index_at, forest_ok)"),
     ("src/iter/tree.rs", r"^next$", r"sub1", r"", "arg:self.index was incremented on the previous line"),
-    ("src/iter/tree.rs", r"^nary_index$", r"sub1", r"", "arg:documented precondition idx < nary_len; callers pass idx from 0..n_children (model: rtl index n - idx - 1 with idx < n)"),
-    ("src/iter/tree.rs", r"", r"", r"", "model:RobustModel (tree iterators): pre_order_iter_total_C11, post_order_iter_total_C11"),
+    ("src/iter/tree.rs", r"^nary_index$", r"sub1", r"", "model:RobustIterSpec.rtl_nary_index (Panic 1 twice, Panic 2) - rtl_post_order_iter_correct_C11 (rtl_nth_child never panics: nth_child's `n < nary_len` guards len - idx - 1)"),
+    ("src/iter/tree.rs", r"", r"", r"", "model:RobustModel / RobustIterSpec (tree iterators): pre_order_iter_total_C11, post_order_iter_correct_C11, rtl_post_order_iter_correct_C11; tied by Tables/RobustIterCasesCheck.v"),
+    ("src/descriptor/tr/taptree.rs", r"^push_leaf$", r"sub1", r"", "model:RobustTapTreeModel.tb_push_leaf / tb_loop (Panic 1: u8 current_height -= 1; also Panic 9: 1 << current_height) - tap_tree_builder_total, tap_tree_builder_never_panics; tied by Tables/RobustIterCasesCheck.v (tap_rows through Tr::from_str)"),
+    ("src/descriptor/tr/taptree.rs", r"^finalize$", r"assert", r"", "model:RobustTapTreeModel.tb_finalize (Panic 7) - tap_tree_builder_total: Tr::from_tree pushes at least one leaf before finalize (tdepths_nonempty)"),
+    ("src/descriptor/tr/taptree.rs", r"^combine$", r"sub1", r"TAPROOT_CONTROL_MAX_NODE_COUNT - 1", "arg:constant expression 128 - 1; the u8 `*depth + 1` below it is reached only for depth <= 127"),
     ("src/miniscript/lex.rs", r"", r"", r"", "model:RobustModel.lex_cursor - lex_total (the byte cursor is rust-bitcoin's Instructions; lex.rs itself has no index expression)"),
     ("src/expression/mod.rs", r"^(parse_pre_check|from_str_inner|new_node)$", r"", r"", "model:ExprTreeModel (C10 builder) - tree_total; robust classes str.tree / str.*"),
     ("src/expression/mod.rs", r"^root$", r"assert", r"", "arg:from_str_inner always pushes at least the root node (tree_total, C10)"),
@@ -234,6 +237,7 @@ RULES = [
     ("src/psbt/finalizer.rs", r"^get_utxo$", r"index", r"", "arg:inputs.len() == unsigned_tx.input.len() is a structural invariant of a deserialised Psbt; the non_witness_utxo.output[vout] index was replaced by get() in /repo 82797344 (regression: psbt mutator non_witness_utxo-vout-out-of-range)"),
     ("src/miniscript/satisfy/mod.rs", r"^satisfy(_mall)?$", r"expect|unwrap", r"", "arg:since /repo c829870f an incompletable template yields an unavailable satisfaction (regression: psbt class, tap leaf with a raw pkh)"),
     ("src/miniscript/satisfy/mod.rs", r"^satisfy_self$", r"debug_assert", r"", "debug-only; contract between AssetProvider sizes and Satisfier signatures"),
+    ("src/miniscript/satisfy/sat_dissat.rs", r"^sat_dissat$", r"assert$", r"[lr]_dis.has_sig", "observed:panic:src/miniscript/satisfy/sat_dissat.rs:sat_dissat:assertion-failed-{l,r}-dis-has-sig (malleable satisfier, or_b / or_c / or_d over or_i(c:expr_raw_pkh(H unresolved),and_v(v:pk(A),pk(B))) with a signature for A; directed input class rawpkh-unresolved-under-d-child in robust classes sat and psbt; known finding, candidate repair notes/fixes/C11-sat-dissat-has-sig-assert.diff)"),
     ("src/miniscript/satisfy/sat_dissat.rs", r"^sat_dissat$", r"assert$", r"has_sig", "arg:or_b/or_c/or_d require a `d` (unique dissatisfaction) left child, typing gives dissat.has_sig = false; exercised by robust class `sat` (typed-but-insane scripts x asset subsets); satisfier model owned by C01/C02"),
     ("src/descriptor/sh.rs", r"", r"assert", r"", "arg:redeem scripts above 520 bytes are rejected at construction since /repo 5d25865d / 4c5160f8 (size accounting of uncompressed keys; regression input sh-redeem-521-bytes, reported by C07)"),
     ("src/util.rs", r"", r"expect", r"", "arg:redeem scripts above 520 bytes are rejected at construction since /repo 5d25865d / 4c5160f8 (regression input sh-redeem-521-bytes, reported by C07)"),
